@@ -134,10 +134,28 @@ def run(module, tier, seed, nproc=16):
     merged.extra.update(main.extra)
     results = []
     if nproc > 1 and len(shards) > 1:
-        with multiprocessing.get_context("fork").Pool(min(nproc, len(shards)), _init_worker,
-                                                       (module.__name__, (prop, tier, seed, deadline))) as pool:
-            for res in pool.imap_unordered(_work, shards, chunksize=1):
-                results.append(res)
+        import concurrent.futures
+        from concurrent.futures.process import BrokenProcessPool
+        ctxmp = multiprocessing.get_context("fork")
+        try:
+            with concurrent.futures.ProcessPoolExecutor(max_workers=min(nproc, len(shards)), mp_context=ctxmp, initializer=_init_worker,
+                                                        initargs=(module.__name__, (prop, tier, seed, deadline))) as pool:
+                futs = {pool.submit(_work, s): s for s in shards}
+                for fut in concurrent.futures.as_completed(futs):
+                    results.append(fut.result())
+        except BrokenProcessPool:
+            # a worker process died (signal): find the shard by re-running the shards one by one in child processes
+            culprit = None
+            for s in shards:
+                with concurrent.futures.ProcessPoolExecutor(max_workers=1, mp_context=ctxmp, initializer=_init_worker,
+                                                            initargs=(module.__name__, (prop, tier, seed, time.time() + 120))) as one:
+                    try:
+                        one.submit(_work, s).result(timeout=600)
+                    except Exception:
+                        culprit = s
+                        break
+            print("HARNESS-ERROR property=%s a worker process died (fatal signal inside the code under test?) shard=%s" % (prop, json.dumps(culprit)[:400]))
+            return 2
     else:
         _init_worker(module.__name__, (prop, tier, seed, deadline))
         for s in shards:
